@@ -9,7 +9,8 @@ Model-level statements go through `DMat.toMatrix`, i.e. they are about the very 
 `negWitness?`, `Clamp.run Gen.C07.varianceClamp`, `NExpr.eval Gen.C07.greaterThanTransform`).
 
 PROVED for all sizes / inputs / hyperparameters: RBF (also ARD), RQ (also ARD), Matérn-½, -3/2 and -5/2 in input dimension
-one, the triangle kernel (piecewise polynomial q = 0, d = 1), Hamming-IMQ (any sequence length / vocabulary), cosine (d = 1),
+one, the triangle kernel (piecewise polynomial q = 0, d = 1), Hamming-IMQ (any sequence length / vocabulary),
+PolynomialKernelGrad (value / gradient blocks of `(⟨x,y⟩+c)^p`, every n, d, p), cosine (d = 1),
 periodic, spectral mixture, linear, constant, polynomial, index, multitask / LCM (Kronecker), cylindrical (given a PSD
 radial factor — the radial kernel acts on one-dimensional radii, so RBF / RQ / Matérn bases are covered), scale, sums,
 products; and the general tools `gram_l2_psd` / `gram_autocorrelation_psd` (`k(a,b) = ∫ g(t−a) g(t−b) dt`),
@@ -17,9 +18,10 @@ products; and the general tools `gram_l2_psd` / `gram_autocorrelation_psd` (`k(a
 
 NOT PROVED (observed only, see `gram_psd_partial` at the end): positive definiteness of the Matérn covariance
 *functions* in input dimension d > 1 (ν = ½, 3/2, 5/2), of the piecewise-polynomial functions for q ≥ 1 (any d) and q = 0 in
-d > 1, and of the derivative kernels (RBFKernelGrad, RBFKernelGradGrad, Matern52KernelGrad, PolynomialKernelGrad).  The first
-two are Bochner / Schoenberg-level harmonic analysis in ℝ^d which Mathlib does not provide (in d = 1 the autocorrelation
-representation replaces it); the last needs differentiation of PSD kernels.
+d > 1, and of the derivative kernels RBFKernelGrad, RBFKernelGradGrad, Matern52KernelGrad.  The first two are Bochner /
+Schoenberg-level harmonic analysis in ℝ^d which Mathlib does not provide (in d = 1 the autocorrelation representation
+replaces it); the last needs the jet (value / gradient) version of `gram_exp_psd` resp. of the Matérn representation
+(`gram_jet_product_psd` is the algebraic half of it).
 -/
 import GPVerif.Bridge.PSD
 import GPVerif.Bridge.RBF
@@ -27,6 +29,7 @@ import GPVerif.Bridge.RQ
 import GPVerif.Bridge.Matern12
 import GPVerif.Bridge.Autocorr
 import GPVerif.Bridge.HammingIMQ
+import GPVerif.Bridge.JetProduct
 
 open Matrix
 open scoped Kronecker
@@ -367,6 +370,42 @@ theorem gram_hamming_imq_psd {T V : Type*} [Fintype T] [DecidableEq V] (seq : ι
     (of fun i j => ((1 + α) / (α + ((Finset.univ.filter fun t => seq i t ≠ seq j t).card : ℝ))) ^ β :
       Matrix ι ι ℝ).PosSemidef := hamming_imq_gram_psd seq hα hβ
 
+/-! ### Wave 3: derivative kernels of kernels with a finite feature map (index `(i, none)` = value at `x_i`,
+`(i, some a)` = `∂/∂x_a` at `x_i`; gpytorch's interleaved layout is a reindexing, cf. `gram_kronecker_psd`'s `e`) -/
+
+/-- **Leibniz (jet) product**: if `A`, `B` are PSD value / gradient block matrices of two kernels, the block matrix of the
+PRODUCT kernel (`jetProd A B`: Leibniz rule in each argument) is PSD. -/
+theorem gram_jet_product_psd {d : Type*} [Fintype d] [DecidableEq d]
+    {A B : Matrix (ι × Option d) (ι × Option d) ℝ} (hA : A.PosSemidef) (hB : B.PosSemidef) :
+    (of fun u v => A u v * B (u.1, none) (v.1, none) +
+      (if v.2 = none then 0 else 1) * (A u (v.1, none) * B (u.1, none) v) +
+      (if u.2 = none then 0 else 1) * (A (u.1, none) v * B u (v.1, none)) +
+      (if u.2 = none then 0 else 1) * (if v.2 = none then 0 else 1) * (A (u.1, none) (v.1, none) * B u v) :
+      Matrix (ι × Option d) (ι × Option d) ℝ).PosSemidef := jetProd_psd hA hB
+
+/-- **derivative blocks of the (offset) linear kernel** `s(x, y) = ⟨x, y⟩ + c`, `c ≥ 0`:
+`[s, ∂s/∂y_b = x_i b; ∂s/∂x_a = x_j a, δ_ab]` is the Gram matrix of the stacked features `(x_i, √c)`, `(e_a, 0)`. -/
+theorem gram_linear_grad_psd {d : Type*} [Fintype d] [DecidableEq d] (X : Matrix ι d ℝ) {c : ℝ} (hc : 0 ≤ c) :
+    (of fun u v => match u.2, v.2 with
+      | none, none => (X * Xᵀ) u.1 v.1 + c
+      | none, some b => X u.1 b
+      | some a, none => X v.1 a
+      | some a, some b => if a = b then 1 else 0 : Matrix (ι × Option d) (ι × Option d) ℝ).PosSemidef :=
+  linGrad_psd X hc
+
+/-- **`PolynomialKernelGrad`**: the value / gradient block matrix of `(⟨x, y⟩ + c)^p` that `PolynomialKernelGrad.forward`
+assembles (`K11 = s^p`, `K12 = p s^{p−1} x_i b`, `K21 = p s^{p−1} x_j a`, `K22 = p(p−1) s^{p−2} x_j a x_i b + p s^{p−1} δ_ab`) is PSD
+for every finite point set, every input dimension, every power `p` and offset `c ≥ 0`
+(`blocks(s^{p+1}) = jetProd (blocks(s^p)) (blocks(s))`, induction on `p`). -/
+theorem gram_polynomial_grad_psd {d : Type*} [Fintype d] [DecidableEq d] (X : Matrix ι d ℝ) {c : ℝ} (hc : 0 ≤ c) (p : ℕ) :
+    (of fun u v => match u.2, v.2 with
+      | none, none => ((X * Xᵀ) u.1 v.1 + c) ^ p
+      | none, some b => p * ((X * Xᵀ) u.1 v.1 + c) ^ (p - 1) * X u.1 b
+      | some a, none => p * ((X * Xᵀ) u.1 v.1 + c) ^ (p - 1) * X v.1 a
+      | some a, some b => p * (p - 1) * ((X * Xᵀ) u.1 v.1 + c) ^ (p - 2) * X v.1 a * X u.1 b +
+          (if a = b then p * ((X * Xᵀ) u.1 v.1 + c) ^ (p - 1) else 0) :
+      Matrix (ι × Option d) (ι × Option d) ℝ).PosSemidef := polyGrad_psd X hc p
+
 /-- entrywise product of finitely many PSD matrices (`ProductStructureKernel`, products of several factors). -/
 theorem gram_finite_product_psd {q : Type*} (s : Finset q) (Kf : q → Matrix ι ι ℝ) (h : ∀ a ∈ s, (Kf a).PosSemidef) :
     (of fun i j => ∏ a ∈ s, Kf a i j : Matrix ι ι ℝ).PosSemidef := hprod_psd s Kf h
@@ -584,13 +623,13 @@ end model
 Full strength (NOT proved — Bochner / Schoenberg):
 
   theorem gram_psd (k ∈ {Matérn ν ∈ {½, 3/2, 5/2} in input dimension d > 1, piecewise polynomial (q ≥ 1; q = 0 in d > 1),
-      RBFKernelGrad, RBFKernelGradGrad, Matern52KernelGrad, PolynomialKernelGrad})
+      RBFKernelGrad, RBFKernelGradGrad, Matern52KernelGrad})
       (x : Fin n → domain k) : (of fun i j => k (x i) (x j)).PosSemidef
 
 (RBF, RQ, cosine d = 1, periodic and spectral mixture, listed as unprovable in DESIGN.md, ARE proved above:
 `gram_rbf_psd`, `gram_rq_psd`, `gram_cosine_psd`, `gram_periodic_psd`, `gram_spectral_mixture_psd`; in dimension one
 Matérn-½ / 3/2 / 5/2: `gram_matern12_1d_psd`, `gram_matern32_1d_psd`, `gram_matern52_1d_psd`, the triangle kernel
-`gram_piecewise_q0_1d_psd`; Hamming-IMQ: `gram_hamming_imq_psd`.)
+`gram_piecewise_q0_1d_psd`; Hamming-IMQ: `gram_hamming_imq_psd`; PolynomialKernelGrad: `gram_polynomial_grad_psd`.)
 
 Proved weakening: the order-2 necessary conditions for a stationary kernel `k(x,y) = f(dist x y)` with
 `|f r| ≤ f 0` (which Matérn and piecewise polynomial satisfy): the Gram matrix is symmetric, has
